@@ -367,10 +367,36 @@ def value_objects(name, mod):
     rec("data_types_are_value_objects", True, tag + f"{n} compared fields of registered classes are of scalar / hashable declared types")
 
 
+def pyarrow_instances():
+    """documented as equivalent (docs/source/dtype_validation.md): the native pyarrow instance, its '<name>[pyarrow]' alias and
+    pd.ArrowDtype(instance).  A pyarrow DataType compares and hashes equal to its printed NAME ('int64', 'bool', 'string', 'float'):
+    the bare instance must still resolve to the Arrow type it denotes, not to whatever the engine registered under that string."""
+    PE = pandas_engine.Engine
+    prims = [pa.bool_(), pa.int8(), pa.int16(), pa.int32(), pa.int64(), pa.uint8(), pa.uint16(), pa.uint32(), pa.uint64(), pa.float16(), pa.float32(),
+             pa.float64(), pa.string(), pa.large_string(), pa.binary(), pa.date32(), pa.date64(), pa.null()]
+    n = 0
+    for p in prims:
+        try:
+            want = PE.dtype(pd.ArrowDtype(p))
+        except Exception:
+            continue  # (not a registered arrow type in this engine)
+        n += 1
+        try:
+            got = PE.dtype(p)
+            ok = eq_hash(got, want)
+            note = f"dtype({p!r}) = {short(got)}, dtype(pd.ArrowDtype({p})) = {short(want)}"
+        except Exception as e:
+            ok, note = False, f"dtype({p!r}) raises {type(e).__name__}: {str(e)[:80]}"
+        if not ok:
+            rec("native_pyarrow_instance_resolves_to_its_arrow_type", False, "[pandas] " + note)
+    rec("native_pyarrow_instance_resolves_to_its_arrow_type", True, f"[pandas] {n} primitive pyarrow instances resolve like their pd.ArrowDtype")
+
+
 def main():
     for name, mod in ENGINES.items():
         close_engine(name, mod)
         value_objects(name, mod)
+    pyarrow_instances()
     # --- the lazily imported pyarrow engine must not change what a spelling means -----------------------------------------
     PE = pandas_engine.Engine
     reg = ENG.Engine._registry[PE]
